@@ -47,6 +47,7 @@ def run(repo, run, tier):
     safeguard(repo, run)
     caps(repo, run)
     endpoints(repo, run)
+    bracket_invariant(repo, run)
 
 
 def _scalar_tree(fn):
@@ -319,3 +320,110 @@ def endpoints(repo, run):
         run.judged(rid, "vector success `%s` is implied by an exact zero at b" % src(st.value), ok=ok)
         if not ok:
             run.report("C14.5", OPT, st, "the vector solver's success mask is not implied by an exact zero at the end point b: a root at an end of the bracket is not certified")
+
+
+# ------------------------------------------------------------------------------------------------
+class _Tok:
+    """an abscissa together with the sign of the function there"""
+    def __init__(self, name, sign):
+        self.name, self.sign = name, sign
+
+
+def bracket_invariant(repo, run):
+    """The update after a new point s keeps a sign change in [a, b]: interpreted over signs of f in {-,0,+} (scalar solver); the vector solver must
+    apply the same update under the mask `fa * fs < 0` and its complement."""
+    from ..absint import Interp, Domain, OPAQUE, Nondet
+    import copy
+    rid = run.rule("C14.6", "bracket invariant: for every sign pattern (f(a), f(b), f(s)) with f(a) f(b) <= 0, after the update statements the bracket still satisfies "
+                            "f(a) f(b) <= 0, contains the new point, and each abscissa keeps its own function value (scalar solver, by abstract interpretation "
+                            "over signs); the vector solver applies the same update under mask / complement", floor=10)
+    fn = repo.get(OPT, "brentsroot")
+    loop = [st for st in fn.body if isinstance(st, ast.While)][0]
+    body = loop.body
+    i0 = next((i for i, st in enumerate(body) if isinstance(st, ast.Assign) and src(st.targets[0]) == "fs"), None)
+    i1 = next((i for i, st in enumerate(body) if isinstance(st, ast.Assign) and src(st.targets[0]) == "conv"), None)
+    if i0 is None or i1 is None or i1 <= i0:
+        raise AnalysisError("brentsroot: update block (fs = f(s) ... conv = ...) not found")
+    block = [st for st in body[i0 + 1:i1] if not (isinstance(st, ast.AugAssign) and src(st.target) == "numiter")]
+    synth = ast.FunctionDef(name="update", args=ast.arguments(posonlyargs=[], args=[], kwonlyargs=[], kw_defaults=[], defaults=[]),
+                            body=block + [ast.Return(value=ast.Tuple(elts=[ast.Name(id=n, ctx=ast.Load()) for n in ("a", "b", "fa", "fb")], ctx=ast.Load()))],
+                            decorator_list=[], type_params=[])
+    ast.fix_missing_locations(synth)
+
+    class Dom(Domain):
+        def call(self, name, node, args, kwargs, interp):
+            short = (name or "").split(".")[-1]
+            if short in ("abs", "absolute") and args and isinstance(args[0], int):
+                return ("absval", args[0])
+            return NotImplemented
+
+        def compare(self, op, a, b, node):
+            if isinstance(a, tuple) and a and a[0] == "absval" and isinstance(b, tuple) and b and b[0] == "absval":
+                # |fa| < |fb| on signs: decided only when one of them is exactly zero
+                x, y = abs(a[1]), abs(b[1])
+                if isinstance(op, ast.Lt):
+                    if x == 0 and y == 1:
+                        return True
+                    if y == 0:
+                        return False
+                    return Nondet
+                return Nondet
+            return NotImplemented
+    bad = []
+    n = 0
+    for sa in (-1, 0, 1):
+        for sb in (-1, 0, 1):
+            if sa * sb > 0 or (sa == 0 and sb != 0):
+                continue        # loop invariant: |f(b)| <= |f(a)| (established by the swap), so f(a) = 0 implies f(b) = 0
+            for ss in (-1, 0, 1):
+                it = Interp(Dom(), max_paths=16)
+                env = {"a": _Tok("a", sa), "b": _Tok("b", sb), "s": _Tok("s", ss), "fa": sa, "fb": sb, "fs": ss,
+                       "c": _Tok("c", None), "d": _Tok("d", None)}
+                for outcome, val, _ in it.all_paths(synth, env):
+                    n += 1
+                    ok = outcome == "return" and isinstance(val, tuple) and all(isinstance(v, _Tok) for v in val[:2]) and all(isinstance(v, int) for v in val[2:])
+                    why = "update block not interpretable"
+                    if ok:
+                        ta, tb, nfa, nfb = val
+                        if nfa * nfb > 0:
+                            ok, why = False, "the sign change is lost: new bracket has f(a) f(b) > 0"
+                        elif "s" not in (ta.name, tb.name):
+                            ok, why = False, "the new point is not an end of the new bracket"
+                        elif ta.sign != nfa or tb.sign != nfb:
+                            ok, why = False, "an abscissa is paired with the function value of another point"
+                        elif ta.name == tb.name:
+                            ok, why = False, "both ends of the bracket are the same point"
+                        elif nfa == 0 and nfb != 0:
+                            ok, why = False, "the end with the smaller |f| is not kept in b (the swap that maintains |f(b)| <= |f(a)| is missing)"
+                    run.judged(rid, "signs (fa,fb,fs)=(%d,%d,%d): %s" % (sa, sb, ss, "ok" if ok else why), ok=ok)
+                    if not ok:
+                        bad.append(((sa, sb, ss), why))
+    if bad:
+        (sg, why) = bad[0]
+        run.report("C14.6", OPT, block[0] if block else loop, "brentsroot: for function signs (f(a), f(b), f(s)) = %s the bracket update goes wrong: %s (%d of %d sign cases fail): the "
+                                                             "returned point need not be near a sign change" % (sg, why, len(bad), n), text="brentsroot bracket update: %s" % why)
+    # vector solver: same update under mask and complement
+    vfn = repo.get(OPT, "brentsrootvec")
+    vloop = [st for st in vfn.body if isinstance(st, ast.While)][0]
+    vb = vloop.body
+    j0 = next((i for i, st in enumerate(vb) if isinstance(st, ast.Assign) and src(st.targets[0]) == "fs"), None)
+    stores = {}
+    cur_mask = None
+    masks = {}
+    for st in vb[j0 + 1:] if j0 is not None else []:
+        if isinstance(st, ast.Assign) and src(st.targets[0]) == "conv":
+            break
+        if isinstance(st, ast.Assign) and isinstance(st.targets[0], ast.Name) and st.targets[0].id == "mask":
+            cur_mask = Canon().text(st.value)
+        if isinstance(st, ast.Assign) and isinstance(st.targets[0], ast.Subscript) and isinstance(st.targets[0].value, ast.Name) and src(st.targets[0].slice) == "mask" \
+                and isinstance(st.value, ast.Subscript):
+            stores.setdefault(cur_mask, []).append((st.targets[0].value.id, src(st.value.value)))
+    want_pos = sorted([("b", "s"), ("fb", "fs")])
+    want_neg = sorted([("a", "s"), ("fa", "fs")])
+    pos = [k for k in stores if k and k.replace(" ", "") in ("cmp(fa*fsLt0)", "cmp(fa*fs Lt 0)".replace(" ", ""))]
+    neg = [k for k in stores if k and k.startswith("logical_not(")]
+    okv = len(pos) == 1 and sorted(stores[pos[0]]) == want_pos and len(neg) >= 1 and sorted(stores[neg[0]]) == want_neg
+    run.judged(rid, "vector update: under `fa*fs < 0` %s, under its complement %s" % (stores.get(pos[0]) if pos else None, stores.get(neg[0]) if neg else None), ok=okv)
+    if not okv:
+        run.report("C14.6", OPT, vloop, "brentsrootvec does not apply the bracket update (b, fb) <- (s, fs) where f(a) f(s) < 0 and (a, fa) <- (s, fs) elsewhere: %s" % (
+            {k: v for k, v in stores.items()},), text="brentsrootvec bracket update")
